@@ -1,7 +1,7 @@
 import sys,os,collections
 sys.path.insert(0,'/verif')
 from rules import core
-P=core.Program('cli','/verif/build/facts/t1/cli')
+P=core.Program('cli',sorted(__import__('glob').glob('/verif/build/facts/*/cli'))[-1])
 names=sys.argv[1:]
 cnt=collections.Counter()
 for n in names:
